@@ -1645,7 +1645,14 @@ impl<'a, const C: usize, const R: usize, T: 'a + Copy + std::fmt::Debug> Layout<
         }
     }
     fn run_action_queue_for_overflow(&mut self) {
-        while let Some(Some((coord, delay, action, layer_stack))) = self.action_queue.pop_front() {
+        // Only the actions that are waiting now: an action can queue itself again (a switch case
+        // that repeats the switch), which would otherwise keep this loop from ever ending. What
+        // gets queued here is left to the caller's bounded rounds and to the following ticks.
+        for _ in 0..self.action_queue.len() {
+            let Some(Some((coord, delay, action, layer_stack))) = self.action_queue.pop_front()
+            else {
+                break;
+            };
             let custom = match layer_stack {
                 Some(layer_stack) => {
                     self.do_action(action, coord, delay, false, &mut layer_stack.into_iter())
